@@ -58,6 +58,7 @@ namespace {
 
 const char* DEVNAME = "/dev/simvbi0";
 const int DAEMON_PID = 4242;
+const int DEV_TASK = 90;  // plan task number of the capture hardware / driver (dev_quiet, dev_glitch ops)
 
 static int64_t absmod(int64_t v, int64_t m) { if (m <= 0) return 0; v %= m; return v < 0 ? v + m : v; }
 
@@ -90,6 +91,13 @@ struct SimDev {
   int64_t t_next = 0;  // capture time of the next frame
   int idx_next = 0;
   int64_t wake_armed = -1;
+  // planned read faults (ops of the device task, DEV_TASK): the next glitch_left read calls fail although the descriptor was
+  // reported readable (select variant) / the blocking read returns early (thread variant).  Kind 0 = time-out (read returns 0),
+  // else -1 with an errno a V4L driver hands through; glitch_gap_ns apart; glitch_eats = the frame that was due is lost in the driver
+  int glitch_left = 0, glitch_kind = 0;
+  bool glitch_eats = false;
+  int64_t glitch_gap_ns = 0, glitch_next = 0, glitch_armed = -1;
+  int fault_run = 0;  // failed reads within this device session since the last service update (probe)
   vbi_sliced buf[64];
   vbi_capture_buffer sliced_buffer;
 };
@@ -153,6 +161,7 @@ struct Universe {
   std::vector<int> holders;                   // connections currently holding the token (global event order)
   std::vector<std::pair<uint64_t, double>> flushes;  // (seq, capture clock) of channel flush notifications
   int adversaries_done = 0, adversaries = 0;
+  int64_t last_dev_fault_ns = -1;  // simulated time of the last failed device read / armed glitch
   Universe(RunCtx& c, const Plan& p, Sched& s, simk::Kernel& kk) : ctx(c), plan(p), sched(s), k(kk) {}
   uint64_t next_seq() { return ++seq; }
 };
@@ -226,6 +235,13 @@ static int dev_make_frame(SimDev* d, int i, vbi_sliced* out) {
 static bool dev_readable(SimDev* d) {
   simk::Kernel& k = d->u->k;
   if (d->services == 0 || d->suspended) return false;
+  if (d->glitch_left > 0) {  // spurious wake-up: readable, but the read will not return a frame
+    if (k.now_ns() >= d->glitch_next) return true;
+    if (d->glitch_armed != d->glitch_next) {
+      d->glitch_armed = d->glitch_next;
+      k.sched.at(d->glitch_next, [&k] { k.wake_all(); });
+    }
+  }
   if (k.now_ns() >= d->t_next) return true;
   if (d->wake_armed != d->t_next) {
     d->wake_armed = d->t_next;
@@ -233,6 +249,36 @@ static bool dev_readable(SimDev* d) {
   }
   return false;
 }
+
+// A planned read fault fires: nothing is handed over (the hand-over log only holds frames a read call returned with > 0).
+// What io-v4l2k.c / io-v4l.c can return from read(): 0 when their select() times out (the daemon passes a zero time-out, so
+// any wake-up without a complete frame, and every frame skipped after a flush, ends like this); -1 with the errno of read(2) /
+// VIDIOC_DQBUF / select(2) other than EINTR and ETIME, which both drivers retry internally: EIO (also for a short read; bttv
+// then has dequeued the buffer: the frame is lost), EAGAIN, EBUSY (the one the daemon's own comment names).
+static int dev_read_fault(SimDev* d) {
+  Universe& u = *d->u;
+  simk::Kernel& k = u.k;
+  static const int errs[4] = {0, EIO, EAGAIN, EBUSY};
+  static const char* const names[4] = {"fault_dev_read_timeout", "fault_dev_read_eio", "fault_dev_read_eagain", "fault_dev_read_ebusy"};
+  int kind = d->glitch_kind & 3;
+  d->glitch_left--;
+  d->glitch_next = k.now_ns() + d->glitch_gap_ns;
+  u.last_dev_fault_ns = k.now_ns();
+  bool due = k.now_ns() >= d->t_next;
+  if (d->glitch_eats && due) { d->idx_next++; d->t_next += u.period_ns; u.ctx.count("dev_frames_lost_in_failed_read"); }
+  u.ctx.log("dev read fails: %s%s", kind ? (kind == 1 ? "EIO" : kind == 2 ? "EAGAIN" : "EBUSY") : "time-out", due ? (d->glitch_eats ? " (frame lost)" : " (frame due)") : "");
+  u.ctx.count(names[kind]);
+  if (due) u.ctx.count("dev_read_failed_with_frame_due");
+  d->fault_run++;
+  if (d->fault_run == 3) u.ctx.count("dev_failed_reads_between_updates_3");
+  if (d->fault_run == 10) u.ctx.count("dev_failed_reads_between_updates_10");
+  if (d->fault_run == 20) u.ctx.count("dev_failed_reads_between_updates_20");
+  if (d->fault_run == 40) u.ctx.count("dev_failed_reads_between_updates_40");
+  if (kind == 0) return 0;
+  errno = errs[kind];
+  return -1;
+}
+static bool dev_glitch_due(SimDev* d) { return d->glitch_left > 0 && d->services != 0 && d->u->k.now_ns() >= d->glitch_next; }
 
 static int dev_read(vbi_capture* vc, vbi_capture_buffer** raw, vbi_capture_buffer** sliced, const struct timeval* timeout) {
   simk::KScope ks;  // driver context: its allocations are not the daemon's
@@ -246,12 +292,15 @@ static int dev_read(vbi_capture* vc, vbi_capture_buffer** raw, vbi_capture_buffe
   int64_t deadline = k.now_ns() + (int64_t)timeout->tv_sec * 1000000000ll + (int64_t)timeout->tv_usec * 1000ll;
   for (;;) {
     k.cancel_point();  // read(2) is a cancellation point when it is entered, not only while it blocks
+    if (dev_glitch_due(d)) return dev_read_fault(d);
     if (d->services != 0 && k.now_ns() >= d->t_next) break;
-    if (!d->thread_mode && k.now_ns() >= deadline) return 0;
+    if (!d->thread_mode && k.now_ns() >= deadline) { u.ctx.count("dev_read_nothing_due"); return 0; }
     // a driver without select() support blocks in read(2) (a cancellation point) until a frame arrives
     d->in_read_wait = true;
     k.thr().at_cancel_point = true;
-    if (d->services == 0) k.wait(); else k.wait_until(d->thread_mode ? d->t_next : std::min(d->t_next, deadline));
+    int64_t wake = d->thread_mode ? d->t_next : std::min(d->t_next, deadline);
+    if (d->glitch_left > 0) wake = std::min(wake, std::max(d->glitch_next, k.now_ns()));
+    if (d->services == 0) k.wait(); else k.wait_until(wake);
     k.thr().at_cancel_point = false;
     d->in_read_wait = false;
     k.cancel_point();
@@ -291,6 +340,7 @@ static unsigned int dev_update_services(vbi_capture* vc, vbi_bool reset, vbi_boo
   SimDev* d = (SimDev*)vc;
   Universe& u = *d->u;
   d->suspended = true;
+  d->fault_run = 0;
   if (reset) {
     vbi_raw_decoder_reset(&d->rd);
     dev_set_params(d);
@@ -526,6 +576,21 @@ struct ClientRunner {
       } else if (r == 0) {
         u.ctx.count("client_read_timeout_or_async");
         u.ctx.log("client %d: read -> 0", c.idx);
+        // Bounded liveness ("each client that keeps up receives every frame captured while it was subscribed ... the same data a
+        // direct capture would have returned"): a direct capture returns a frame every 40 ms unless a device fault is planned.  A
+        // subscribed client that sat in ONE read call for the full second (25 frame periods of simulated time, and simulated time
+        // only passes when every task is blocked) and got nothing was starved by the daemon.  Not judged: windows with a planned
+        // device fault (armed, pending, or fired from two periods before the window on: frames may be lost in the driver) and
+        // windows near a channel flush notification (C19: the daemon discards every queue and flushes the device by design).
+        if (u.k.now_ns() - t0 >= 999000000ll && c.iv.back().granted != 0) {
+          bool dev_fault = (u.dev && u.dev->glitch_left > 0) || u.last_dev_fault_ns >= t0 - 2 * u.period_ns;
+          bool flushed = false;
+          double w0 = (double)u.k.epoch_s + (double)t0 / 1e9, w1 = (double)u.k.epoch_s + (double)u.k.now_ns() / 1e9;
+          for (auto& fl : u.flushes) if (fl.second > w0 - 2.5 && fl.second < w1 + 2.5) flushed = true;
+          if (dev_fault) u.ctx.count("client_waited_1s_during_device_faults");
+          else if (flushed) u.ctx.count("client_waited_1s_near_flush");
+          else { u.ctx.fail("oracle:starved", "client %d (granted %x) waited a full second in one read call and received nothing; the device had no fault planned and a direct capture returns a frame every 40 ms (device %s, %zu frames handed over so far)", c.idx, c.iv.back().granted, u.dev ? "open" : "closed", u.hand.size()); return; }
+        }
         if (c.iv.back().granted == 0) break;  // nothing is ever sent to a client without services
       } else { drop("read"); }
     }
@@ -612,7 +677,7 @@ struct ClientRunner {
     for (const Op& op : u.plan.ops) {
       if (op.task != c.idx || u.ctx.failed) continue;
       if (op.kind == "connect") do_connect((int)op.arg(0), (int)absmod(op.arg(1) + 1, 4) - 1, 1 + (int)absmod(op.arg(2), 10), op.arg(3) != 0);
-      else if (op.kind == "read") do_read(1 + (int)absmod(op.arg(0), 40));
+      else if (op.kind == "read") do_read(1 + (int)absmod(op.arg(0), 160));  // (the generator stayed below 40 until device faults came)
       else if (op.kind == "stall") do_stall(20 + (int)absmod(op.arg(0), 3000));
       else if (op.kind == "update") do_update((int)op.arg(0), (int)absmod(op.arg(1) + 1, 4) - 1, op.arg(2) != 0);
       else if (op.kind == "close") do_close();
@@ -631,6 +696,40 @@ struct ClientRunner {
     c.done = true;
   }
 };
+
+// ---- device task: the capture hardware / driver as an independent party.  Its script (ops of task DEV_TASK) arms read
+// faults on the device as it is at that simulated instant: "dev_quiet" [ms, us] lets time pass, "dev_glitch" [kind, burst,
+// gap_us, eats, aligned] makes the next 1 + burst % 40 read calls fail (kind 0: time-out, read returns 0; 1-3: -1 with EIO / EAGAIN /
+// EBUSY), gap_us apart (0 = back to back at one instant), eats != 0: a frame that was due at a failed read is lost in the driver.
+// A glitch while the device is closed, suspended or idle hits nothing.
+static void dev_fault_script(Universe& u) {
+  auto over = [&u] {
+    if (u.ctx.failed || u.daemon_exited) return true;
+    for (auto& c : u.clients) if (!c.done) return false;
+    return true;
+  };
+  for (const Op& op : u.plan.ops) {
+    if (op.task != DEV_TASK) continue;
+    if (over()) return;
+    if (op.kind == "dev_quiet") u.sched.sleep_ns(absmod(op.arg(0), 3001) * 1000000 + absmod(op.arg(1), 1000) * 1000);
+    else if (op.kind == "dev_glitch") {
+      SimDev* d = u.dev;
+      if (!d || d->services == 0 || d->suspended) { u.ctx.count("dev_glitch_hit_nothing"); continue; }
+      int burst = 1 + (int)absmod(op.arg(1), 40);
+      d->glitch_kind = (int)absmod(op.arg(0), 4);
+      d->glitch_left = std::min(d->glitch_left + burst, 120);
+      d->glitch_gap_ns = absmod(op.arg(2), 40001) * 1000;
+      d->glitch_eats = op.arg(3) != 0;
+      // at once (a wake-up between two frames), or (aligned) with the next frame: the descriptor is readable because a frame
+      // is there, and the read fails all the same
+      d->glitch_next = op.arg(4) != 0 ? std::max(d->t_next, u.k.now_ns()) : u.k.now_ns();
+      u.ctx.log("dev glitch: kind %d, %d reads, %lld us apart%s%s", d->glitch_kind, burst, (long long)(d->glitch_gap_ns / 1000), d->glitch_eats ? ", frames lost" : "", op.arg(4) != 0 ? ", with the next frame" : "");
+      u.ctx.count("dev_glitches");
+      u.last_dev_fault_ns = u.k.now_ns();
+      u.k.wake_all();
+    }
+  }
+}
 
 // ---- quiescence audit (white box), run in scheduler context after task switches
 static void audit(Universe& u) {
@@ -707,6 +806,30 @@ struct ProxyWorld : World {
     }
   }
 
+  // Script of the device task.  Drawn from a random stream of its own: the rest of the plan is what it was without it.
+  // In a quarter of these runs one client read becomes a long one (1.6 - 4.4 s), a quiet phase as far as this client goes.
+  void gen_dev_faults(Plan& p, Rng& r) {
+    int n = (int)r.range(1, 4);
+    int flavour = (int)r.below(4);   // 0: time-outs only, 1: errors only, 2, 3: mixed
+    bool spread = r.chance(1, 2);    // bursts spread over simulated time as well, else back to back only
+    for (int i = 0; i < n; i++) {
+      Op q; q.task = DEV_TASK; q.kind = "dev_quiet";
+      q.a = {(int64_t)(i == 0 ? r.range(40, 700) : (r.chance(1, 3) ? r.below(40) : r.below(1500))), (int64_t)r.below(1000)};
+      p.ops.push_back(q);
+      Op g; g.task = DEV_TASK; g.kind = "dev_glitch";
+      int64_t kind = flavour == 0 ? 0 : flavour == 1 ? (int64_t)r.range(1, 3) : (r.chance(1, 2) ? 0 : (int64_t)r.range(1, 3));
+      int64_t burst = r.chance(1, 4) ? (int64_t)r.below(3) : (int64_t)r.below(40);
+      int64_t gap = !spread || r.chance(1, 2) ? 0 : (r.chance(1, 2) ? (int64_t)r.range(1, 3000) : (int64_t)r.range(3000, 40000));
+      g.a = {kind, burst, gap, r.chance(1, 4), r.chance(1, 3)};
+      p.ops.push_back(g);
+    }
+    if (r.chance(1, 4)) {
+      std::vector<size_t> reads;
+      for (size_t i = 0; i < p.ops.size(); i++) if (p.ops[i].kind == "read" && p.ops[i].task < DEV_TASK) reads.push_back(i);
+      if (!reads.empty()) p.ops[reads[r.below(reads.size())]].a = {(int64_t)r.range(40, 110)};
+    }
+  }
+
   virtual void spawn_extra(Universe&, std::vector<ClientRunner*>&) {}
   virtual void final_checks(Universe&) {}
   virtual void install_hooks(Universe&) {}
@@ -764,6 +887,11 @@ struct ProxyWorld : World {
         k.set_pid(t, 100 + i, true);
       }
       spawn_extra(u, runners);
+      for (const Op& op : plan.ops) if (op.task == DEV_TASK) {
+        sim::Task* dt = sched.spawn("device", [&u] { dev_fault_script(u); }, 256 * 1024);
+        k.set_pid(dt, 2, true);
+        break;
+      }
 
       // controller: when every client is done, let the daemon settle, check that the device is closed, terminate it
       sim::Task* ctl = sched.spawn("controller", [&] {
@@ -841,6 +969,8 @@ struct C18 : ProxyWorld {
       p.knobs["start_delay" + std::to_string(i)] = (int64_t)r.below(200);
       gen_client_ops(p, r, i, (int)r.range(2, thorough ? 14 : 8), r.chance(1, 2));
     }
+    Rng rd(seed, "devfaults");
+    if (rd.chance(1, 2)) gen_dev_faults(p, rd);
     return p;
   }
   bool nontrivial(Universe& u, int frames, int busy) override { (void)u; return frames >= 10 && busy >= 1; }
